@@ -61,7 +61,31 @@ def _int(ex, st, pos, kw, node, star):
     v = ops.deref(st, pos[0])
     if isinstance(v, (VInt, VBool)):
         return [(st, ops.to_int(v))]
+    from . import pyint
+    if pyint.is_npint(v):
+        return [(st, VInt(pyint.val(v)))]
     raise Unsupported("int() of non-int")
+
+
+@stub("numpy.int64", assumed="A2b np.int64(v): the Python int v tagged signed; OverflowError outside [-2**63, 2**63)")
+def _np_int64(ex, st, pos, kw, node, star):
+    from . import pyint
+    return pyint.np_scalar(ex, st, pos, kw, node, False)
+
+
+@stub("numpy.uint64", assumed="A2b np.uint64(v): the Python int v tagged unsigned; OverflowError outside [0, 2**64)")
+def _np_uint64(ex, st, pos, kw, node, star):
+    from . import pyint
+    return pyint.np_scalar(ex, st, pos, kw, node, True)
+
+
+@stub("abs")
+def _abs(ex, st, pos, kw, node, star):
+    v = ops.deref(st, pos[0])
+    if isinstance(v, (VInt, VBool)):
+        t = ops.to_int(v).t
+        return [(st, VInt(z3.If(t >= 0, t, -t)))]
+    raise Unsupported("abs() of non-int")
 
 
 @stub("bool")
@@ -170,6 +194,10 @@ def _isinstance(ex, st, pos, kw, node, star):
     table = {"str": (VStr,), "int": (VInt, VBool), "bool": (VBool,), "float": (VFloat,),
              "list": (VSeq, VEmptySeq), "set": (VSet, VEmptySet), "dict": (VMap, VEmptyMap),
              "Path": (), "PathLike": (), "Integral": (VInt, VBool)}
+    from . import pyint
+    if pyint.is_npint(vv) and all(n in ("uint64", "int64") for n in names):
+        u = pyint.unsigned(vv)
+        return [(st, VBool(z3.Or([u if n == "uint64" else z3.Not(u) for n in names])))]
     if isinstance(vv, VAtom) and isinstance(vv.kind, Abstract):
         ts = []
         for n in names:
